@@ -107,7 +107,8 @@ PROPS = {
         exact_ops="all",
         rule="exhaustive: every interval of the three kinds over a chain (i64, f64 with ±0/±inf, &str, u8) × every probe value "
              "(contains, RangeBounds::contains) and every ordered pair of intervals (intersects, includes, is_included_in); "
-             "a case is one request line, distinct by sha1 of its input; all are non-trivial (no rejection path exists)",
+             "a case is one request line, distinct by sha1 of its input; all are non-trivial (no rejection path exists)"
+             " start_bound/end_bound themselves and membership computed from them the way a range consumer does.",
         trusted_base=INTERVAL_TB,
         assumptions=["element comparison of the Rust type is the total order of the theorem (i64, u8, &str; f64 without NaN)"],
     ),
@@ -117,7 +118,7 @@ PROPS = {
         needs_crit=True, exhaustive=True, exact_ops=set(),
         technique="Lean 4 theorems (Wilson score roots, domains, front-ends over exact reals) + exhaustive (n,k) differential correspondence with an exact-rational score-equation oracle",
         level_text="Kernel-checked theorems over the model at exact real arithmetic: for all n, k, z the two returned bounds are exactly the roots of the "
-                   "score equation, lie in [0,1], one-sided requests return [root,1] / [0,root], the Wilson and Wald domains are exactly the documented "
+                   "score equation, lie in [0,1] (the clamp of ci_wilson is the identity there; on rounded and extended carriers every Ok result lies in [0,1] whatever the critical value), one-sided requests return [root,1] / [0,root], the Wilson and Wald domains are exactly the documented "
                    "integer conditions, and every front-end equals ci_wilson of the counts it implies. The model is tied to the code by running both on "
                    "every (n,k) with 0<=k<=n+1 up to a bound (and sampled to 1e9), all kinds; the oracle evaluates the score-equation residual of the "
                    "implementation's own bounds in exact dyadic arithmetic.",
@@ -127,7 +128,8 @@ PROPS = {
                    "accepts the rounded pair needs fl monotone and z >= 0 or an exact width >= 16u (refuted otherwise on a concrete non-monotone fl). The oracle's measured residual "
                    "bound (64*2^-53*max(1,z^2)) is applied to IEEE doubles, whose overflow/underflow behaviour the standard model omits.",
         rule="exhaustive over (n,k), 0<=k<=n+1, n<=90 (quick) / 400 (thorough) x 4-14 confidences, plus sampled n up to 2^30, front-end data sets, "
-             "ratio form for every k/n; distinct by sha1 of the input; non-trivial = all (rejections are part of the documented domain)",
+             "ratio form for every k/n; distinct by sha1 of the input; non-trivial = all (rejections are part of the documented domain)"
+             " Random histories of new/extend/extend_if/add_success/add_failure/+=/+/from_iter on one Stats (pseq); levels within an ulp of 1 and of 0 (infinite critical value -> [0,1]).",
         assumptions=["statrs Normal::inverse_cdf is the standard-normal quantile (validated under C06)"],
     ),
     "C03": dict(
@@ -144,7 +146,8 @@ PROPS = {
                    "under |fl x - x| <= u|x| and Wilson bounds within eps, (eps + u(1+eps)) n < 1, ranks differ by at most one position, and are equal away from integer crossings; examples show one position is attained); the float ranks (floor of a rounded product) are compared with the model run on IEEE floats, "
                    "the real-number rank theorems transfer to floats only up to 'one position' (checked by the oracle on every case).",
         rule="all n in 0..160 (quick) / 0..2000 (thorough) x q grid (every integer and half-integer q*n and both float neighbours) x 6 confidences; "
-             "random n to 2e6; data-level cases for 4 element types; distinct by sha1 of the input",
+             "random n to 2e6; data-level cases for 4 element types; distinct by sha1 of the input"
+             " NaN at every position of otherwise ascending data (documented panic).",
         assumptions=["elements are mutually comparable (NaN data is the documented panic, checked as such)"],
     ),
     "C17": dict(
@@ -159,7 +162,8 @@ PROPS = {
         level_note="Trusted: Lean kernel + 3 standard axioms; float slack of 8*2^-53 on the relations is measured, not proved. Known finding: for one-sided "
                    "levels below 1/2 (negative z) a larger population does not narrow the interval (the theorem needs z>0).",
         rule="all (n,k) with 2<=k<=n-2, n<=70 (quick) / 400 (thorough): mono (k,k+1), mirror, shrink (random m in 2..50), wider (random level pair); "
-             "random n to 1e6; distinct by sha1 of the input",
+             "random n to 1e6; distinct by sha1 of the input"
+             " Level pairs below 1/2; level scans on a grid that is fine near 0 and near 1.",
         assumptions=["statrs Normal::inverse_cdf is increasing in p (validated numerically by the 'wider' relation itself)"],
     ),
     "C13": dict(
@@ -175,7 +179,8 @@ PROPS = {
                    "unbounded Int); they are covered by execution only. relative_to against an upward-unbounded reference is sound and attains its finite "
                    "bound but is not tight on the unbounded side (stated as a theorem).",
         rule="exhaustive: all intervals over i64 box [-4,4] (quick) / [-6,6] (thorough) and 7 dyadic f64 values x all scalars in [-4,4] resp. 7 floats "
-             "(mul, div (k != 0), add, sub, neg) x all ordered pairs (A+B, A-B, relative_to); distinct by sha1 of the input",
+             "(mul, div (k != 0), add, sub, neg) x all ordered pairs (A+B, A-B, relative_to); distinct by sha1 of the input"
+             " u8 intervals (add/sub, scalar and interval): the exact image or the overflow panic iff a bound of it is not representable.",
         trusted_base=INTERVAL_TB,
         assumptions=["element arithmetic is exact on the generated values (small integers, dyadic floats)"],
     ),
@@ -190,7 +195,8 @@ PROPS = {
                    "for i64, u8 (0/MAX), f64 (+-0, +-inf) and &str through every constructor and conversion, with a recording Hasher.",
         level_note="Trusted: Lean kernel + 3 standard axioms; NaN bounds are outside the property's quantifier; width overflow of machine integers is outside the model.",
         rule="exhaustive over all ordered pairs of a 6-9 element chain per element type: new, try_from((T,T)), try_from((Option,Option)), try_from(a..=b), from(a..), "
-             "from(..=a), accessor table, option-pair round trip, clone, ==, tuple/extreme projections, width, recorded hash input; distinct by sha1 of the input",
+             "from(..=a), accessor table, option-pair round trip, clone, ==, tuple/extreme projections, width, recorded hash input; distinct by sha1 of the input"
+             " Pair conversion of all 12 integer instantiations; every interval against its copy under ==, partial_cmp, <=, >=, <, >.",
         trusted_base=INTERVAL_TB,
     ),
     "C15": dict(
@@ -217,7 +223,8 @@ PROPS = {
         level_note="Trusted: Lean kernel + 3 standard axioms; the element-level algorithms of the approx crate are transcribed (not proved) in the driver and "
                    "compared bit-for-bit through the interval-level results.",
         rule="all ordered pairs of float intervals over an 8-element chain x 3 (quick) / 12 (thorough) tolerance triples drawn from the actual differences; "
-             "display of every interval over three element types; distinct by sha1 of the input",
+             "display of every interval over three element types; distinct by sha1 of the input"
+             " Display of huge / tiny / 17-digit floats and of long strings (renderings far beyond 64 bytes).",
     ),
     "C08": dict(
         modules=["StatsCI.Properties.C08"],
@@ -235,7 +242,8 @@ PROPS = {
                    "never on n beyond the n u^2 term.",
         rule="random stack programs over 1-8 chunks (append / extend / += / + / clone / interleaved queries), every merge-tree shape over 2-5 (quick) / 6 chunks, "
              "five generators (constant, same-sign, mixed magnitudes, cancelling, head+increments) for f32 and f64, streams of 5e4 and 1e6 (1e7 thorough) elements; "
-             "distinct by sha1 of the program",
+             "distinct by sha1 of the program"
+             " One register fed alternately by value and by one-element register (up to 10^6 steps); one-sign streams, negative and positive; == of registers and From<T>.",
         assumptions=["no overflow/underflow in the generated streams"],
     ),
     "C01": dict(
@@ -254,7 +262,8 @@ PROPS = {
                    "the oracle tolerance 16 u_F (mean|x| + halfwidth) + c min(50 u_F Y/s, sqrt(50 u_F Y))/sqrt n uses the constants of the theorems of C01R (which need n u_F <= 2^-10 and a monotone fl for Interval::new to accept the pair; beyond that the tolerance is applied, not proved).",
         rule="random samples: all n in 2..9, 60 (quick) / 400 (thorough) sizes in 10..300, sizes to 5000, both sides of the t->z switch (99 999..100 003), "
              "long samples (150 000 quick; 10^6 thorough); 7 generator styles; f32 and f64; random and grid levels in [0.001, 0.9999]; three kinds; "
-             "distinct by sha1 of the input; all non-trivial (n >= 2, non-constant)",
+             "distinct by sha1 of the input; all non-trivial (n >= 2, non-constant)"
+             " 7 call styles (incl. chunked from_iter+extend and two partial states merged with +); zero-sum and zero-containing samples; magnitudes where (sum x)^2 overflows but sum x^2 does not.",
         trusted_base=["rounding: IEEE arithmetic is interpreted as reals with an abstract rounding function; overflow/underflow/NaN propagation are outside these theorems (covered by execution and by C11)"],
         assumptions=["statrs StudentsT/Normal inverse_cdf are the true quantiles (validated under C06)"],
     ),
@@ -271,7 +280,8 @@ PROPS = {
         level_note="Trusted: Lean kernel + 3 standard axioms; statrs quantile external. Two constant samples: in real arithmetic with x/0=0 the model asks t at "
                    "dof -2 (panic); IEEE gives NaN dof and the z branch - this difference between the RR interpretation and IEEE is stated as a theorem and "
                    "covered by execution.",
-        rule="100 (quick) / 600 (thorough) random paired cases (every 5th with unequal lengths) and as many unpaired cases; f32 and f64; distinct by sha1 of the input",
+        rule="100 (quick) / 600 (thorough) random paired cases (every 5th with unequal lengths) and as many unpaired cases; f32 and f64; distinct by sha1 of the input"
+             " Samples with more than 100 000 observations in total and a tiny effective dof; mismatched extend on a populated Paired (3 ways of populating it); balanced samples (maximal effective dof).",
         trusted_base=["rounding: IEEE arithmetic is interpreted as reals with an abstract rounding function; overflow/underflow/NaN propagation are outside these theorems (covered by execution and by C11)"],
     ),
     "C05": dict(
@@ -305,7 +315,8 @@ PROPS = {
                    "can produce is covered by the theorem and the observed result is compared with the batch result within the deepest tree's budget. The empty "
                    "register is right-neutral only up to 2|c| + O(u)|s| when the compensation is non-zero (theorem neutral_rounded).",
         rule="80 (quick) / 600 (thorough) random programs of up to 40-200 operations for each of 7 state types, f32 and f64, queries interleaved and repeated; "
-             "12/60 parallel reductions; distinct by sha1 of the program",
+             "12/60 parallel reductions; distinct by sha1 of the program"
+             " Chunks of 1024..5000 observations through extend/from_iter; Unpaired fed through stats_a_mut/stats_b_mut as well as append_a/append_b.",
         trusted_base=["rounding: IEEE arithmetic is interpreted as reals with an abstract rounding function; overflow/underflow/NaN propagation are outside these theorems (covered by execution and by C11)"],
     ),
     "C18": dict(
@@ -320,7 +331,8 @@ PROPS = {
         level_note="Trusted: Lean kernel + 3 standard axioms; IEEE comparison of f64 is assumed to be the XR comparison. Known finding: the enum variants are public, "
                    "so an invalid level can be written as a literal; every constructor function and conversion is checked.",
         rule="~60 boundary levels + 200 (quick) / 2000 (thorough) random levels x {new, new_two_sided, new_upper, new_lower, TryFrom<f64>, TryFrom<f32>}, accessor table of "
-             "24+ confidences, all ordered pairs for partial_cmp and the five operators; non-trivial = all; distinct by sha1 of the input",
+             "24+ confidences, all ordered pairs for partial_cmp and the five operators; non-trivial = all; distinct by sha1 of the input"
+             " Levels that differ far below an ulp of 1/2, and by 1-2 ulps next to 1 and inside [1/2,1).",
     ),
     "C12": dict(
         modules=["StatsCI.Properties.C12"],
@@ -356,7 +368,8 @@ PROPS = {
                    "finite-range effects (x^2 overflowing, underflow) exist only in the Float instance and are checked by execution.",
         rule="12 confidences x {n in 0..1} x 8 entry points, constant data (5 values x 4 sizes), NaN/+inf/-inf at each of 6 positions x 7 entry points, "
              "huge/tiny magnitudes, non-positive data, 5 length mismatches, 11 (n,k) edge pairs, 6 invalid quantiles x 5 entry points, n in 0..3 for quantiles, "
-             "plus random extreme-range valid inputs; non-trivial = all (each line is an invalid or degenerate input class); distinct by sha1 of the input",
+             "plus random extreme-range valid inputs; non-trivial = all (each line is an invalid or degenerate input class); distinct by sha1 of the input"
+             " NaN inside ascending data for the quantile entry points.",
     ),
     "C16": dict(
         modules=["StatsCI.Properties.C16"],
@@ -373,7 +386,8 @@ PROPS = {
                    "generator keeps magnitudes in range). For unpaired reorderings the external t quantile is only as smooth as its own accuracy (allowance "
                    "|c1-c2|/|c| of the half-width).",
         rule="60 (quick) / 400 (thorough) data sets per producer {arith, paired, unpaired, geo, harm} x {f32, f64} x {scale 2^e, negate, shift, reorder} + all 120 "
-             "permutations of a 5-element sample every 20th round; distinct by sha1 of the input",
+             "permutations of a 5-element sample every 20th round; distinct by sha1 of the input"
+             " Shifts that make the sum exactly zero, exactly cancelling paired differences, geometric data balanced around 1; scaling into the window where only the squares still fit.",
     ),
     "C06": dict(
         modules=["StatsCI.Properties.C06"],
@@ -393,7 +407,8 @@ PROPS = {
                    "(exact coverage) is textbook mathematics not in Mathlib. Trusted: Lean kernel + 3 standard axioms; the reference CDF implementation.",
         rule="tcrit: every n in 2..400 (quick) / 2..2002 (thorough) + 11-20 larger n through the switch, levels from a 400-point grid, kinds rotating; hook: "
              "2500 / 20000 (dof, level, kind) triples over integer dof 1..300, real dof, dof around 1e5; zprop: 500 / 4000 (n,k); ucrit: 250 / 2000 sample pairs; "
-             "distinct by sha1 of the input",
+             "distinct by sha1 of the input"
+             " More than 100 000 observations in total with a small effective dof; the statrs quantile pocket as a corpus case (known finding).",
         assumptions=["the reference CDFs are accurate to 1e-12 (checked against closed forms on every build of the driver's self-check; against scipy in development)"],
     ),
     "C20": dict(
@@ -412,7 +427,8 @@ PROPS = {
         level_note="Partial: the build clause is a compiler fact, not a theorem. The serde data model of the derives is transcribed by hand in Model/Serde.lean "
                    "and checked only through the trees serde_json produces. Trusted: Lean kernel + 3 standard axioms; serde / serde_json / toml.",
         rule="5 feature-set builds; 40 (quick) / 300 (thorough) rounds x 9 state types (f32/f64) reached by random programs of up to 30-150 operations + a "
-             "Confidence and an Interval per round; distinct by sha1 of the program",
+             "Confidence and an Interval per round; distinct by sha1 of the program"
+             " Constant samples of non-dyadic values (n in 1..11); states standing for 2^31..2^33 observations reached by doubling.",
     ),
     "C10": dict(
         modules=["StatsCI.Properties.C10"],
@@ -430,6 +446,7 @@ PROPS = {
                    "validated numerically for statrs by these very relations (and by C06). One-sided L vs two-sided 2L-1 agree on floats only up to the rounding of "
                    "1-(1-(2L-1))/2 (tolerance scaled with the conditioning of the inverse CDF; rank bounds may differ by one position).",
         rule="25 (quick) / 120 (thorough) data sets per producer x 4 / 12 level pairs of each of two shapes (one-sided L vs two-sided 2L-1; same kind L1 < L2 in "
-             "[0.001, 0.9999]) x f64 (all producers) and f32 (mean-type producers); distinct by sha1 of the input",
+             "[0.001, 0.9999]) x f64 (all producers) and f32 (mean-type producers); distinct by sha1 of the input"
+             " Proportion producers with 10..14 successes/failures at levels 0.99..0.99995; the five mean producers with 100 003 observations.",
     ),
 }
